@@ -85,6 +85,63 @@ fn main() {
         }
     }
 
+    // ---- 1b. armor::read_from_buf (header / footer / cleartext-header reassembly) against the model's loop:
+    //          a one-line parser over every cutting of short streams; parsers deciding 0, 1, 2 octets late; limits
+    for stream in ["", "\n", "a\n", "ab\nc", "ab\ncd", "abc", "!a\n", "a!\nb", "\n\n", "a\n\nb", "ab\ncde", "abcd\ne", "abcde\n", "a\nbcdef"] {
+        let data = stream.as_bytes().to_vec();
+        let len = data.len();
+        for lookahead in 0..3usize {
+            let whole = if len == 0 { None } else { guarded(|| pgp::verif_hooks::armor_read_from_buf_line(&[data.clone()], len + 1, lookahead)).ok() };
+            for comp in all_compositions(len) {
+                for limit in [len + 1, 3] {
+                    let mut pieces: Vec<Vec<u8>> = Vec::new(); let mut pos = 0usize;
+                    for c in &comp { pieces.push(data[pos..pos + c].to_vec()); pos += c; }
+                    let r = guarded(|| pgp::verif_hooks::armor_read_from_buf_line(&pieces, limit, lookahead));
+                    let imp = match &r { Ok((Some(l), rest)) => format!("OK {} {}", hx(l), hx(rest)), Ok((None, _)) => "ERR".into(), Err(p) => p.clone() };
+                    // a parser that meets the contract (decides at most one octet late): every cutting gives what one piece gives
+                    let pred = if lookahead < 2 && limit > len { Some(match (&r, &whole) { (Ok(a), Some(b)) => a == b, (Err(_), _) => false, (Ok((v, _)), None) => v.is_none() }) } else { r.as_ref().ok().map(|_| true) };
+                    let pcs = if pieces.is_empty() { "_".to_string() } else { pieces.iter().map(|p| hx(p)).collect::<Vec<_>>().join(",") };
+                    cx.out.case("rfb", &[lookahead.to_string(), limit.to_string(), pcs.clone()], &["rfb".into(), lookahead.to_string(), limit.to_string(), pcs], &imp, pred,
+                        &format!("reassemble-late{lookahead}{}", if limit > len { "" } else { "-limit" }));
+                }
+            }
+        }
+    }
+    // the contract itself on the real armor header parser: over every prefix of armor / cleartext openings, a decision
+    // (value or refusal) never changes with more input and is never taken inside octets already seen undecided
+    {
+        let mut openings: Vec<Vec<u8>> = Vec::new();
+        for typ in ["PGP MESSAGE", "PGP PUBLIC KEY BLOCK", "PGP SIGNED MESSAGE", "PGP MESSAGE, PART 2/3", "PGP NONSENSE"] {
+            for hdrs in ["", "Version: x\n", "Hash: SHA256\nHash: SHA512\n", "Comment: a: b\nComment: \n", "NoColon\n", "Key:novalue\n", "A: b\r\n"] {
+                for lead in ["", "junk\n", "--\n"] {
+                    for blank in ["\n", "\r\n", " \t\n", "x\n"] {
+                        openings.push(format!("{lead}-----BEGIN {typ}-----\n{hdrs}{blank}aGVsbG8=\n=abcd\n").into_bytes());
+                    }
+                }
+            }
+        }
+        for o in openings.iter().step_by(if thorough { 1 } else { 3 }) {
+            #[derive(PartialEq, Clone, Debug)] enum St { D(usize, String), M, B }
+            let mut prev: Option<St> = None; let mut undecided_upto = 0usize; let mut ok = true; let mut why = String::new();
+            for k in 1..=o.len() {
+                let st = match guarded(|| match pgp::armor::header_parser(&o[..k]) {
+                    Ok((rest, v)) => St::D(k - rest.len(), format!("{v:?}")), Err(nom::Err::Incomplete(_)) => St::M, Err(_) => St::B }) { Ok(s) => s, Err(p) => { ok = false; why = p; break; } };
+                match (&prev, &st) {
+                    (Some(St::D(n, v)), St::D(n2, v2)) => if n != n2 || v != v2 { ok = false; why = format!("decision changed at prefix {k}"); },
+                    (Some(St::D(..)), _) => { ok = false; why = format!("decision withdrawn at prefix {k}"); }
+                    (Some(St::B), St::B) => {}
+                    (Some(St::B), _) => { ok = false; why = format!("refusal withdrawn at prefix {k}"); }
+                    (_, St::D(n, _)) => if *n < undecided_upto { ok = false; why = format!("decided at {n} inside {undecided_upto} octets seen undecided"); },
+                    _ => {}
+                }
+                if st == St::M { undecided_upto = k; }
+                if !ok { break; }
+                prev = Some(st);
+            }
+            cx.out.case("", &[], &["header-parser-contract".into(), hx(o)], if ok { "contract holds on every prefix" } else { &why }, Some(ok), "reassemble-header-parser-contract");
+        }
+    }
+
     // ---- 2. builder and reader under schedules
     let cfgs: Vec<Cfg> = {
         let mut v = Vec::new();
